@@ -151,6 +151,9 @@ def run(ctx):
         for rep in range(8 if quick else 80):
             # cosmologies that share a *name* (astropy names every clone "<name> (modified)") and redshifts that repeat
             cosmo = Planck15.clone(Om0=r.uniform(0.2, 0.45), H0=r.uniform(55, 80)) if r.random() < 0.8 else Planck15
+            if rep in (1, 4):
+                from astropy.cosmology import LambdaCDM as _LCDM         # curved models too: the definitions are stated for any FLRW cosmology
+                cosmo = _LCDM(H0=r.uniform(60, 75), Om0=r.uniform(0.25, 0.4), Ode0=r.uniform(0.5, 0.8), Ob0=0.048, Tcmb0=2.725)
             z = prev_z if (prev_z is not None and r.random() < 0.4) else r.choice([0.0, 0.5, 1.0, 3.0, 10.0])
             prev_z = z
             rc_direct = float((cosmo.critical_density(z) / cosmo.h ** 2).to(u.Msun / u.Mpc ** 3).value)
